@@ -28,7 +28,7 @@ fn gen_tree(t: &mut Tctx) -> Shape {
 }
 
 fn rp_tree(kind: &str, shape: &Shape, extra: Vec<(String, String)>) -> Vec<(String, String)> {
-    let mut v = vec![kv("kind", kind), kv("schema", format!("{:?}", shape_to_owned(shape)))];
+    let mut v = vec![kv("kind", kind), kv("shape", shape.text()), kv("schema", format!("{:?}", shape_to_owned(shape)))];
     v.extend(extra);
     v
 }
@@ -114,7 +114,7 @@ fn c15_tree(t: &mut Tctx, shape: &Shape, origin: &str) {
 pub fn run_c15(cfg: &Cfg) -> Report {
     let mut rep = Report::new("C15");
     let s = parallel(cfg, 1, |t| {
-        let n = t.cfg.scale(50, 8_000, 600_000);
+        let n = t.cfg.scale(50, 30_000, 800_000);
         for _ in 0..n {
             if t.cfg.expired() {
                 break;
@@ -390,6 +390,14 @@ fn c16_tree(t: &mut Tctx, shape: &Shape, path: &str) {
         return;
     }
     t.st.count("three_way_agreements");
+    if t.st.want_sample() && shape.nodes() > 2 && shape.nodes() < 10 && path.len() < 30 {
+        let mut j = J::obj();
+        j.set("path", J::s(path)).set("schema", J::s(format!("{}", shape_to_owned(shape)))).set("key", J::s(hex(&kc)));
+        let mut st = Vec::new();
+        key_stream(shape, &mut st);
+        j.set("documented_tag_stream", J::s(hex(&st)));
+        t.st.sample(j);
+    }
     // type names do not matter
     let rn = rename_types(shape);
     if rn != *shape {
@@ -464,7 +472,7 @@ fn c16_tree(t: &mut Tctx, shape: &Shape, path: &str) {
 pub fn run_c16(cfg: &Cfg) -> Report {
     let mut rep = Report::new("C16");
     let s = parallel(cfg, 1, |t| {
-        let n = t.cfg.scale(30, 6_000, 300_000);
+        let n = t.cfg.scale(30, 25_000, 600_000);
         for _ in 0..n {
             if t.cfg.expired() {
                 break;
@@ -542,7 +550,7 @@ fn all_nested(o: &OwnedDataModelType, set: &mut HashSet<OwnedDataModelType>) {
 fn c19_tree(t: &mut Tctx, owned: &OwnedDataModelType, origin: &str) {
     t.st.eval();
     t.st.nontrivial(fp(format!("{:?}", owned).as_bytes()));
-    let rp = || vec![kv("kind", "c19"), kv("schema", format!("{:?}", owned)), kv("origin", origin)];
+    let rp = || vec![kv("kind", "c19"), kv("shape", owned_to_shape(owned).text()), kv("schema", format!("{:?}", owned)), kv("origin", origin)];
     let pc = match catch(|| owned.to_pseudocode()) {
         Ok(s) => s,
         Err(p) => {
@@ -628,7 +636,7 @@ fn c19_tree(t: &mut Tctx, owned: &OwnedDataModelType, origin: &str) {
 pub fn run_c19(cfg: &Cfg) -> Report {
     let mut rep = Report::new("C19");
     let s = parallel(cfg, 1, |t| {
-        let n = t.cfg.scale(50, 6_000, 400_000);
+        let n = t.cfg.scale(50, 40_000, 1_000_000);
         for _ in 0..n {
             if t.cfg.expired() {
                 break;
@@ -668,5 +676,38 @@ pub fn run_c19(cfg: &Cfg) -> Report {
     rep.floor("node_usize", 1);
     rep.floor("node_isize", 1);
     rep.floor("node_schema", 1);
+    rep
+}
+
+// ------------------------------------------------------------------ replay of one recorded tree
+
+pub fn replay(cfg: &Cfg, prop: &str) -> Report {
+    let mut rep = Report::new(prop);
+    let p = cfg.replay.clone().unwrap();
+    let m = read_replay(&p).unwrap_or_default();
+    let prop_s = prop.to_string();
+    let s = parallel(&Cfg { threads: 1, ..cfg.clone() }, 9, |t| {
+        let shape = match m.get("shape").map(|s| Shape::parse(s)) {
+            Some(Ok(s)) => s,
+            other => {
+                t.st.inconclusive(format!("replay file has no parsable shape ({:?}); corpus-type cases are reproduced by re-running the check", other.map(|r| r.err())));
+                return;
+            }
+        };
+        match prop_s.as_str() {
+            "C15" => c15_tree(t, &shape, "replay"),
+            "C16" => {
+                let path = m.get("path").cloned().unwrap_or_default();
+                c16_tree(t, &shape, &path);
+                // sensitivity is sampled with probability 1/4 in c16_tree: repeat to make the replay deterministic enough
+                for _ in 0..16 {
+                    c16_tree(t, &shape, &path);
+                }
+            }
+            _ => c19_tree(t, &shape_to_owned(&shape), "replay"),
+        }
+    });
+    rep.stats.merge(s);
+    rep.rule = "replay of one recorded schema tree".into();
     rep
 }
